@@ -6,7 +6,8 @@ VIOLATION was raised.  Two modes:
   --jobs N       : N workers, each with its own scratch worktree of /repo under /tmp/seedrun/w<k>/repo and its own
                    build directory (./check honours VERIF_REPO / VERIF_BUILD); same binaries' source, same seeds.
                    Worktrees and build output are removed at the end.
-Usage: tools/run_seeded.py [--tier quick|thorough] [--jobs N] [--also C01,C05] [--only <id>...]
+Usage: tools/run_seeded.py [--tier quick|thorough] [--jobs N] [--also C01,C05|ALL] [--root /verif/benign] [--only <id>...]
+(--root /verif/benign --also ALL: behaviour-preserving refactorings, every check must stay silent)
 Merges into /verif/seeded/results.json and rewrites /verif/seeded/RESULTS.md. Never leaves /repo modified."""
 import json, os, subprocess, sys, time, threading, queue, shutil
 
@@ -23,7 +24,11 @@ while args:
     elif a == "--only":
         only = args
         args = []
-    elif a == "--also": also = args.pop(0).split(",")
+    elif a == "--also":
+        also = args.pop(0).split(",")
+        if also == ["ALL"]:
+            also = [f"C{i:02d}" for i in range(1, 21)]
+    elif a == "--root": ROOT = args.pop(0)
 
 def sh(cmd, **kw):
     return subprocess.run(cmd, shell=True, capture_output=True, text=True, **kw)
@@ -35,7 +40,8 @@ lock = threading.Lock()
 def run_one(d, repo, env):
     p = os.path.join(ROOT, d)
     meta = json.load(open(os.path.join(p, "meta.json")))
-    props = meta["property"] if isinstance(meta["property"], list) else [meta["property"]]
+    props = meta.get("property", [])
+    props = props if isinstance(props, list) else [props]
     r = sh(f"git -C {repo} apply --whitespace=nowarn {p}/patch.diff")
     if r.returncode != 0:
         return (d, props, "patch does not apply: " + r.stderr.strip()[:100], {})
@@ -96,10 +102,14 @@ for d, props, summ, res in rows:
 allrows = {k: v for k, v in allrows.items() if os.path.isdir(os.path.join(ROOT, k))}
 json.dump(allrows, open(store, "w"), indent=1, sort_keys=True)
 with open(os.path.join(ROOT, "RESULTS.md"), "w") as f:
-    f.write("# Seeded changes vs checks\n\nexit 1 + VIOLATION = caught; exit 0 = missed; exit 2 = machinery failure. Tier quick unless noted.\n\n| seeded change | breaks | summary | check results (exit, #violations, first message, s) |\n|---|---|---|---|\n")
+    if "benign" in ROOT:
+        f.write("# Behaviour-preserving refactorings vs checks\n\nEvery check must exit 0 (no VIOLATION); exit 1 = false alarm; exit 2 = machinery failure.\n\n| change | - | summary | check results (exit, #violations, first message, s) |\n|---|---|---|---|\n")
+    else:
+        f.write("# Seeded changes vs checks\n\nexit 1 + VIOLATION = caught; exit 0 = missed; exit 2 = machinery failure. Tier quick unless noted.\n\n| seeded change | breaks | summary | check results (exit, #violations, first message, s) |\n|---|---|---|---|\n")
     def keyf(k):
-        a, b = k.split("-m")
-        return (a, int(b))
+        import re
+        m = re.match(r"(.*?)-?[mb]?(\d+)$", k)
+        return (m.group(1), int(m.group(2))) if m else (k, 0)
     for d in sorted(allrows, key=keyf):
         r = allrows[d]
         cell = "<br>".join(f"{c}: exit {v[0]}, {v[1]} viol. {v[2]} ({v[3]} s)" + ("" if r.get("tier", "quick") == "quick" else f" [{r['tier']}]") for c, v in r["results"].items())
